@@ -249,6 +249,31 @@ def _run_own(tier, seed, build, res):
                                  'expected %r in %r' % (want, im[1][1] if im[0] == 'OK' else im)))
 
 
+def undefined_uses(res):
+    """a use that precedes the definition (in the document, in an \\LTinput
+    file) is a use of an undeclared name: not expanded, and reported as such
+    by --unkn whatever is defined later"""
+    rfiles = {'c09r.tex': '\\newcommand{\\xr}{Alice}\\renewcommand{\\xs}[1]{(#1)}\n'}
+    for latex, want in (
+            ('\\xa{} A \\newcommand{\\xa}{one} \\xa{} B', ['\\xa']),
+            ('A \\xq B \\def\\xq{late} \\xq{} C \\xz', ['\\xq', '\\xz']),
+            ('\\xr{} A\n\\LTinput{c09r.tex}\n\\xr{} B \\xy', ['\\xr', '\\xy']),
+            ('A\\footnote{F \\xq{} G} \\newcommand{\\xq}{late} B \\xq{} C', ['\\xq']),
+            ('\\newcommand{\\xa}{one} \\xa{} B', [])):
+        c = parsecase.T2T(latex, lang='en', pack='', unkn=True, files=dict(rfiles))
+        im = parsecase.run_t2t(c)
+        res.count('undefined-uses', c.key())
+        mo = parsecase.parse_model_t2t(core.run_model([parsecase.model_line_t2t(c)])[0])
+        if project(im) != project(mo):
+            res.disagreements.append(('undefined-uses', c.json(), repr(project(im))[:300],
+                                      repr(project(mo))[:300]))
+        got = [n for n in im[1][1].split('\n') if n] if im[0] == 'OK' else im
+        if got != want:
+            res.failures.append(('c09-undef:%r' % latex, c.json(),
+                                 'names used before / without a definition: %r, '
+                                 'listed: %r' % (want, got)))
+
+
 def nosp_route(res):
     """the three routes with --nosp and the preamble line the documentation
     recommends for real LaTeX runs (\\LTinput must stay the filter's macro)"""
@@ -273,6 +298,7 @@ def nosp_route(res):
 
 
 def run(tier, seed, build, res):
+    undefined_uses(res)
     _run_own(tier, seed, build, res)
     nosp_route(res)
     # snippets of /repo's own tests and their mutations (harness/seeds.py)
